@@ -56,6 +56,19 @@ def entries():
                 'GammaUnivariate', 'StudentTUnivariate', 'LogLaplace'):
         E['%s.fit' % cls] = (('ndarray', 'ro-ndarray', 'series'), uni_fit(cls))
 
+    def tg_tight_fit(cont):
+        # explicit bounds that some of the observations violate: the model may do with them what it likes, but not to the caller's object
+        from copulas.univariate import TruncatedGaussian
+        args = {'X': _wrap(B.uni_data('A'), cont)}
+        return args, lambda a: (lambda m: (m.fit(a['X']), m.to_dict())[1])(TruncatedGaussian(minimum=2.0, maximum=8.0))
+    E['TruncatedGaussian(2,8).fit'] = (('ndarray', 'series'), tg_tight_fit)
+
+    def sel_tight_fit(cont):
+        from copulas.univariate import GaussianUnivariate, TruncatedGaussian, Univariate
+        args = {'X': _wrap(B.uni_data('A'), cont)}
+        return args, lambda a: (lambda m: (m.fit(a['X']), m.to_dict())[1])(Univariate(candidates=[TruncatedGaussian(minimum=2.0, maximum=8.0), GaussianUnivariate]))
+    E['Univariate([TruncatedGaussian(2,8),Gaussian]).fit'] = (('ndarray', 'series'), sel_tight_fit)
+
     def sel_fit(cont):
         args = {'X': _wrap(B.uni_data('A'), cont)}
         return args, lambda a: (lambda m: (m.fit(a['X']), m.to_dict())[1])(B.by_name('Univariate').new('c1', 0))
